@@ -154,5 +154,75 @@ PROPS["C20"] = dict(
                 "larger degenerate shapes and partner sizes sampled by rapid."),
     level_note="For ChannelLength(n>0, 0), a combination no buffer can produce, only 'no panic and a result in [0,n]' is demanded.",
 )
+NUM_ASSUME = COMMON_ASSUME + [
+    "amplitude = code (signed) or code - 2^(depth-1) (unsigned), depth = bit width of the element type, computed by the harness in exact int64 / 128-bit / math/big arithmetic",
+    "conversions are driven through 1-channel buffers (position independence is C05's)",
+]
+
+PROPS["C06"] = dict(
+    pkg="c06", idx=6,
+    rule=("Cases = one of the 121 fixed-to-fixed instantiations x a list of source amplitudes. Sweep: every code of int8/uint8/int16/uint16 sources "
+          "(both tiers) and of int32/uint32 sources (thorough), in amplitude order, for all 11 destinations; boundary-dense codes (bounds, 0, +-1, "
+          "+-2^k+{-3..3}, +-1.5*2^k+{-3..3}) for every pair. rapid: 2-24 amplitudes per case, boundary-dense / uniform / clustered around a common base, "
+          "biased to 32/64-bit sources. Oracle: over the amplitudes sorted ascending the result amplitudes never decrease; lowest->lowest, "
+          "highest->highest, zero-amplitude->zero-amplitude. Non-trivial: depths differ, signedness differs, or a code the examples do not pin; "
+          "exhaustively enumerated points are distinct by construction."),
+    quick=dict(rapid=dict(checks=30000, shards=4)),
+    thorough=dict(rapid=dict(checks=150000, shards=16), fuzz=dict(targets=["FuzzC06"], seconds=30), timeout=3600),
+    assumptions=NUM_ASSUME,
+    technique="exhaustive enumeration of all 8/16/32-bit source codes in amplitude order + property-based testing (rapid) on 64-bit sources; order and reference-level oracle in exact integer arithmetic",
+    level_text=("Complete enumeration of every 8- and 16-bit source code (quick) and every 32-bit source code (thorough) for all destinations decides order "
+                "preservation exactly on those sub-domains; 64-bit sources are sampled densely at boundaries and at random (order is checked on sorted samples)."),
+    level_note="Order preservation between two arbitrary 64-bit inputs is only sampled; adjacent-code monotonicity on the swept domains implies it there.",
+)
+
+PROPS["C07"] = dict(
+    pkg="c07", idx=7,
+    rule=("Same domain as C06. Oracle: narrowing by k bits: result amplitude in {floor(a/2^k), ceil(a/2^k)}; equal depth: result amplitude = a; "
+          "widening: converting back with the conversion into every element type of the source's format returns the original amplitude. "
+          "Non-trivial: every code other than the five the examples pin; classes narrowing / equalDepth / widenAndBack / signednessDiffers."),
+    quick=dict(rapid=dict(checks=30000, shards=4)),
+    thorough=dict(rapid=dict(checks=150000, shards=16), fuzz=dict(targets=["FuzzC07"], seconds=30), timeout=3600),
+    assumptions=NUM_ASSUME,
+    technique="exhaustive enumeration of all 8/16/32-bit source codes + property-based testing (rapid) on 64-bit sources; floor/ceil accuracy oracle and widen-then-narrow round trip in exact integer arithmetic",
+    level_text=("Complete enumeration of every 8/16-bit (quick) and 32-bit (thorough) source code for all 11 destinations, including every widen-and-back "
+                "composition; 64-bit sources sampled at boundaries and at random."),
+    level_note="Round trips return to every element type with the source's signedness and depth (int/int64, uint/uint64/uintptr).",
+)
+
+PROPS["C08"] = dict(
+    pkg="c08", idx=8,
+    rule=("Cases = one of the 22 FloatAsSigned/FloatAsUnsigned instantiations x a list of non-NaN floating inputs. Sweep: the boundary-dense float set "
+          "(+-0, +-1, 1-3 ulps around +-2^k and 1.5*2^k for k=-70..70, around 256/65536/2^31/2^32/2^63/2^64 with +-n and +-0.5, subnormals, MaxFloat, "
+          "+-Inf) for all 22; thorough: every non-NaN float32 bit pattern in numeric order for the 11 float32-source instantiations. rapid: 1-16 inputs "
+          "per case from the boundary set, uniform bit patterns, uniform [-1.5,1.5], log-uniform 2^+-80, and points within 0-2 ulps of a quantisation "
+          "boundary (k or k+-0.5)/full scale of the destination. Oracle: x>=1 -> highest code, x<=-1 -> lowest, 0 -> zero amplitude, otherwise "
+          "|amplitude - x*FS| <= 1 decided exactly with a 128-bit product; codes non-decreasing over sorted inputs. Non-trivial: |x|>=1.5, infinite, "
+          "adjacent to +-1, destination narrower than 64 bits."),
+    quick=dict(rapid=dict(checks=30000, shards=4)),
+    thorough=dict(rapid=dict(checks=200000, shards=16), fuzz=dict(targets=["FuzzC08"], seconds=45), timeout=3600),
+    assumptions=NUM_ASSUME + ["NaN inputs are excluded (result unspecified by the property)", "the verdict is for linux/amd64, where the library relies on the platform's float-to-integer conversion for in-range negative inputs to unsigned types"],
+    technique="exhaustive enumeration of all float32 bit patterns (thorough) + boundary-dense sweep + property-based testing (rapid) and native fuzzing; clip/linearity/monotonicity oracle decided with exact 128-bit arithmetic",
+    level_text=("Every non-NaN float32 input for all 11 float32-source instantiations is enumerated in numeric order (thorough), which decides clipping, accuracy and "
+                "monotonicity exactly there; float64 inputs are sampled densely at the boundaries the property names and at random."),
+    level_note="The one-step tolerance is the property's own; the oracle has no floating tolerance of its own (exact integer comparison).",
+)
+
+PROPS["C09"] = dict(
+    pkg="c09", idx=9,
+    rule=("Cases = one of the 22 SignedAsFloat/UnsignedAsFloat instantiations x a list of source amplitudes (as C06). Sweep: every 8/16-bit code (quick) "
+          "and 32-bit code (thorough) in amplitude order into float32 and float64. Oracle: result in [-1,1]; lowest -> -1, zero amplitude -> 0, highest -> 1 "
+          "exactly; non-decreasing; |result - a/FS| <= 2^-(d-1) + 4 ulp (float64 fast path with guard band, math/big inside it and for 64-bit); for d<=32 "
+          "into float64 distinct codes give distinct values and FloatAsSigned/FloatAsUnsigned back into the source type returns the code; through float32 "
+          "with d<=16 the round trip is within one step. Known finding F9 is recognised by its structural predicate and excluded so the sweep continues. "
+          "Non-trivial: codes the examples do not pin, round-trip cases, depth>=16."),
+    quick=dict(rapid=dict(checks=30000, shards=4)),
+    thorough=dict(rapid=dict(checks=150000, shards=16), fuzz=dict(targets=["FuzzC09"], seconds=30), timeout=3600),
+    assumptions=NUM_ASSUME,
+    technique="exhaustive enumeration of all 8/16/32-bit source codes + property-based testing (rapid) on 64-bit sources; range/level/order/accuracy oracle and round trip through the inverse conversion",
+    level_text=("Complete enumeration of every 8/16-bit (quick) and 32-bit (thorough) code into both float types, with injectivity and round trips; 64-bit sources "
+                "sampled. One known finding (F9, UnsignedAsFloat) is reported as KNOWN-FINDING and excluded by a structural predicate."),
+    level_note="'plus float rounding' is taken as 4 ulp of 1 in the destination float type.",
+)
 
 NOT_APPLICABLE = {}
